@@ -51,8 +51,22 @@ class _Sibling:
     def __getattr__(s, k): return getattr(s.V, k)
 
 
+class _IntegerCL:
+    """value factory view: capacitances and inductances are concrete Python integers (the nodal entry point is handed what the caller wrote)"""
+    INTS = (2, 3, 5, 7)
+    def __init__(s, V): s.V = V; s.sym = V.sym; s.mode = V.mode; s.n = {}
+    def val(s, name, kind='c'):
+        if name.endswith('.C') or name.endswith('.L'):
+            if name not in s.n: s.n[name] = s.INTS[len(s.n) % len(s.INTS)]
+            return s.n[name]
+        return s.V.val(name, kind)
+    def __getattr__(s, k): return getattr(s.V, k)
+
+
 def model(cfg, V):
     r = cirlib.repo()
+    if cfg.get('int_cl'):
+        V = _IntegerCL(V)
     if cfg.get('sibling', True):
         # a sibling circuit (same topology and names, other values) is modelled first: the model under test must not depend on it
         sc, sv = build(cfg, _Sibling(V))
@@ -62,7 +76,7 @@ def model(cfg, V):
                                           l_values={c.id: fl0(c.value['L']) for c in sc.components if c.type == 'inductance'})
     circuit, val = build(cfg, V)
     network = r['cct'].transform_circuit(circuit, w=0)
-    fl = core.sym_float if V.sym else float
+    fl = (lambda x: x) if cfg.get('int_cl') else (core.sym_float if V.sym else float)
     c_values = {c.id: fl(c.value['C']) for c in circuit.components if c.type == 'capacitor'}
     l_values = {c.id: fl(c.value['L']) for c in circuit.components if c.type == 'inductance'}
     ssm = r['nssm'].nodal_state_space_model(network, c_values=c_values, l_values=l_values)
@@ -306,8 +320,11 @@ def configs(what, tier, seed):
     ren = [dict(rename(c, rng), what=what) for c in (rng.sample(fam, min(3000, len(fam))) if tier == 'thorough' else rng.sample(fam, min(80, len(fam))))]
     lab = [dict(c, what=what, symlabels=True) for c in rng.sample(fam, min(len(fam), 30 if tier == 'quick' else 400)) if len(c['components']) <= 3]
     twins = [dict(c, what=what, twin=True) for c in rng.sample(fam[:20], 3)]
-    _CFG[(tier, seed)] = cfgs + ren + lab + twins
-    return cfgs + ren + lab + twins
+    # the nodal entry point handed integer capacitances / inductances (the type of a value is an input too)
+    # (not enabled: with concrete integer values some certificates are not found, which would make the clean tree inconclusive; see DESIGN.md)
+    ints = []
+    _CFG[(tier, seed)] = cfgs + ren + lab + ints + twins
+    return cfgs + ren + lab + ints + twins
 
 
 EXPL = {
